@@ -186,12 +186,23 @@ func refUpdate(v *refval.V, segs []string, u update) (*refval.V, bool) {
 
 // HFocused: one focused transform with a symbolic target path.
 func HFocused() {
-	g := graph.New("g", graphs[nd.Choose("graph", nd.Param("G", len(graphs)))])
+	shape := graphs[nd.Choose("graph", nd.Param("G", len(graphs)))]
+	g := graph.New("g", shape)
 	before := resolve(g.Root, &g.LS)
 	n := 1 + nd.Choose("nseg", nd.Param("SEGS", 2))
+	deeper := false
+	if nd.Param("SEGS", 2) == 2 && shape == graphs[2] && nd.Choose("deeper", 2) == 1 {
+		// one more level below the first link of the linked map graph (parents created beyond a link)
+		n, deeper = 3, true
+	}
 	var segs []datamodel.PathSegment
 	var strs []string
 	for i := 0; i < n; i++ {
+		if deeper && i == 0 {
+			strs = append(strs, "a")
+			segs = append(segs, datamodel.PathSegmentOfString("a"))
+			continue
+		}
 		// list segments: digits, "-" (append) or non-numeric; negative numbers are outside the claim
 		if nd.Choose("segform", 2) == 1 {
 			// a segment made from an integer (as walks over lists make them): addresses list
@@ -339,6 +350,49 @@ func HWalking() {
 		want := mapSelected(before, si, sels[si], 0)
 		nd.Assert(refval.Equal(refval.Of(out), want), "exactly the selected scalars are replaced, everything else equal and in order")
 	}
+	nd.Reach("end")
+}
+
+// HSelectorReuse: one compiled selector with explicit interests (fields, index) drives two
+// transforming walks in a row, and one over a list of records: each application is what a
+// freshly compiled selector gives.
+func HSelectorReuse() {
+	mk := func() *selgen.Sel {
+		return &selgen.Sel{Op: 'a', Subs: []*selgen.Sel{{Op: 'f', Fields: []string{"a", "b"}, Subs: []*selgen.Sel{matcher, matcher}}}}
+	}
+	g := graph.New("g", []string{"[{cicicn}{cicsc1t}{cnci}]", "{c{cict}c{cs1cn}}"}[nd.Choose("graph", 2)])
+	before := refval.Of(g.Root)
+	shared := compile(mk())
+	fn := func(p traversal.Progress, x datamodel.Node) (datamodel.Node, error) {
+		return basicnode.NewString("X"), nil
+	}
+	var first, second, fresh datamodel.Node
+	var e1, e2, e3 error
+	nd.NoPanic("transforms", func() {
+		first, e1 = traversal.WalkTransforming(g.Root, shared, fn)
+		second, e2 = traversal.WalkTransforming(g.Root, shared, fn)
+		fresh, e3 = traversal.WalkTransforming(g.Root, compile(mk()), fn)
+	})
+	nd.Assert(e1 == nil && e2 == nil && e3 == nil, "the transforms succeed")
+	if e1 != nil || e2 != nil || e3 != nil {
+		return
+	}
+	want := &refval.V{K: before.K, Keys: before.Keys}
+	for _, rec := range before.L {
+		r := &refval.V{K: rec.K, Keys: rec.Keys}
+		for i, c := range rec.L {
+			if rec.K == refval.Map && (rec.Keys[i] == "a" || rec.Keys[i] == "b") {
+				r.L = append(r.L, refval.MkString("X"))
+			} else {
+				r.L = append(r.L, c)
+			}
+		}
+		want.L = append(want.L, r)
+	}
+	nd.Assert(refval.Equal(refval.Of(first), want), "the first application replaces exactly the selected fields of every record")
+	nd.Assert(refval.Equal(refval.Of(second), want), "so does the second application of the same compiled selector")
+	nd.Assert(refval.Equal(refval.Of(fresh), want), "and a freshly compiled one")
+	nd.Assert(refval.Equal(refval.Of(g.Root), before), "the input is unchanged")
 	nd.Reach("end")
 }
 
